@@ -35,7 +35,7 @@ FUNCTIONS = ['penman.codec._decode', 'penman.codec._encode',
              'penman.layout.get_pushed_variable', 'penman.surface.alignments',
              'penman.surface.role_alignments']
 BOUNDS = {
-    'quick': 'trees of <= 2 branches x 20 calls x every interleaved second '
+    'quick': 'trees of <= 2 branches x 21 calls x every interleaved second '
              'call; set orders: every permutation of the first 3 elements of '
              'every set (17 rewritten sites) on trees of <= 2 branches',
     'thorough': 'trees of <= 3 branches; permutations of the first 4 elements',
@@ -107,10 +107,13 @@ def make_calls():
         ('dereify_edges (reified argument)', lambda E: gsig(
             transform.dereify_edges(E.gr, E.m))),
         ('encode reified', lambda E: penman.encode(E.gr, model=E.m)),
+        # a triple with two diagnostics (undefined role and unreachable)
+        ('errors (two messages on one triple)',
+         lambda E: list(E.m.errors(E.gbad).items())),
     ]
 
 
-NCALLS = 20
+NCALLS = 21
 GR_TEXT = ('(c / chapter~1 :ARG1-of (_ / have-mod-91~2 :ARG2 7~3) '
            ':ARG0 (b / book :ARG1-of (_2 / have-mod-91 :ARG2 (d / dull))))')
 
@@ -129,14 +132,23 @@ def build_env(sym, n):
                            real)
     E.g2 = penman.decode(G2_TEXT, model=real)
     E.gr = penman.decode(GR_TEXT, model=real)
+    from penman.graph import Graph
+    E.gbad = Graph([('a', ':instance', 'x'), ('b', ':foo', 'c'),
+                    ('b', ':instance', 'y'), ('d', ':bar-of-of', 'b')])
     E.text = penman.format(E.t)
     E.lastvar = sorted(E.g.variables())[-1]
     return E, node
 
 
+def qsig(g):
+    return (sorted(g.variables(), key=repr), g.instances(), g.edges(),
+            g.attributes())
+
+
 def snapshot(E):
     return (copy.deepcopy(E.t.node), dict(E.t.metadata), gsig(E.g), E.g._top,
-            gsig(E.g2), E.g2._top, gsig(E.gr), E.gr._top)
+            gsig(E.g2), E.g2._top, gsig(E.gr), E.gr._top, qsig(E.g),
+            qsig(E.gr), gsig(E.gbad))
 
 
 def h_pure(n: int, **sym):
@@ -159,8 +171,8 @@ def h_pure(n: int, **sym):
         # identity independence: pickled arguments (fresh marker objects)
         P = Env()
         P.m = E.m
-        P.t, P.g, P.g2, P.gr = pickle.loads(
-            pickle.dumps((E.t, E.g, E.g2, E.gr)))
+        P.t, P.g, P.g2, P.gr, P.gbad = pickle.loads(
+            pickle.dumps((E.t, E.g, E.g2, E.gr, E.gbad)))
         P.text, P.lastvar = E.text, E.lastvar
         r4 = f(P)
     except Violation:
@@ -242,7 +254,7 @@ def obligations(tier: str) -> List[dict]:
             add('h_pure', '(a,b,d) purity/repeatability/identity', 400,
                 ['ran'], n=1, call=c)
             # calls whose code iterates sets get the larger trees
-            deep = c in (0, 3, 6, 7, 8, 11, 12, 13, 14, 18)
+            deep = c in (0, 3, 6, 7, 8, 11, 12, 13, 14, 18, 20)
             add('h_setorder', '(c) set iteration order', 400,
                 ['sets-iterated'] if c in (0, 11, 12) else [],
                 n=2 if deep else 1, width=3, call=c)
@@ -266,7 +278,7 @@ def obligations(tier: str) -> List[dict]:
 
 
 LEVEL_TEXT = ('Bounded model checking: for every tree up to the bound and '
-              'every call of a table of 20 public calls, the real code is run '
+              'every call of a table of 21 public calls, the real code is run '
               'with argument snapshots before/after, repeated, interleaved '
               'with every other call and on pickled copies; hash-seed '
               'independence is decided by running penman with every set '
